@@ -85,6 +85,9 @@ def r09_1(ctx, m):
             if isinstance(a, ast.Attribute):
                 used = a.attr
         src = norm(m.ctor_kw.get(used)) if used in m.ctor_kw else "?"
+        src_defs = [st for st in walk_stmts(f.node.body) if (isinstance(st, ast.Assign) and any(norm(t) == src for t in st.targets)) or (isinstance(st, ast.AugAssign) and norm(st.target) == src)]
+        if not src_defs:
+            raise AnalysisError("R09.1", f.where(m.pass1), f"the offset stored with each record (`{src}`) is not assigned in the sort function (it is handed in by a generator or a caller): where it comes from is not traced")
         ctx.violated("R09.1", f.where(m.pass1), f"the offset stored with each record (`{src}`) is not the value of {rd}.tell() taken before reading the record", key_of(f, f"offset-not-tell:{src}"), stored=src)
         return
     m.off_attr = off_attr
@@ -396,8 +399,11 @@ def r09_3(ctx, m):
             if ol_ is None:
                 raise AnalysisError("R09.3", pa.where(one), f"inversion guard outside the fragment: {e}")
             try:
+                mk_ = sc.orientation_collection(pa, ol_)
+                if mk_ is None:
+                    raise sc.ListUnsupported(f"`{ol_}` is neither appended to nor added to")
                 for L_ in sc.orientation_lists(4):
-                    v_ = all(bool(sc.eval_list_test(t, ol_, L_, _pd)) == pol for t, pol in guards)
+                    v_ = all(bool(sc.eval_list_test(t, ol_, mk_(L_), _pd)) == pol for t, pol in guards)
                     want_ = ">" in L_ and "<" in L_
                     if v_ != want_ and bad is None:
                         bad = {"scaffold_orientations": "".join(L_), "iv": int(v_), "required": int(want_)}
@@ -436,6 +442,8 @@ def r09_3(ctx, m):
         ov = norm(apps[0].value.args[0])
         # the orientation recorded is the sign preceding this node
         sets = [st for st in walk_stmts(loop.body) if isinstance(st, ast.Assign) and norm(st.targets[0]) == ov]
+        if not sets:
+            raise AnalysisError("R09.3", pa.where(apps[0]), f"the orientation `{ov}` that is recorded is not assigned in the node loop (it is handed in by the loop header or a helper): that it is the sign preceding the node is not traced")
         ctx.check(len(sets) == 1 and norm(sets[0].value) == norm(loop.target), "R09.3", pa.where(apps[0]), "the orientation recorded is the sign element preceding the node in the path", key_of(pa, "orient-value"))
 
 
